@@ -84,6 +84,84 @@ def parseStackOp (j : Json) : R StackOp := do
   | "add_to" => pure (.addTo (← getNat j "layer") (← getList parseNatPair j "cells") (← getInt j "delta"))
   | o => throw s!"unknown stack op {o}"
 
+/-- what was done to the object since it was built, as far as stack and calibrations go: a change of the stack
+(`StackOp`; `SRRLaser.rename / remove / add` also change `self.calibration`, see `calAfter`) or an assignment of
+`laser.calibration` -/
+inductive ObjEvent
+  | stack (op : StackOp)
+  | setCal (cal : List (String × Calib))
+  /-- `laser.calibration[name] = Calibration(...)` -/
+  | setCalItem (name : String) (k : Calib)
+
+def parseCal (j : Json) : R (String × Calib) := do
+  match (← asArr j) with
+  | [n, b, g] => pure (← asStr n, { intercept := ← asRat b, gradient := ← asRat g })
+  | _ => throw "calibration [name, intercept, gradient] expected"
+
+def parseEvent (j : Json) : R ObjEvent := do
+  match (← getStr j "op") with
+  | "set_cal" => pure (.setCal (← getList parseCal j "cal"))
+  | "cal_item" => pure (.setCalItem (← getStr j "name") { intercept := ← getRat j "intercept", gradient := ← getRat j "gradient" })
+  | _ => pure (.stack (← parseStackOp j))
+
+def stackOps (evs : List ObjEvent) : List StackOp :=
+  evs.filterMap (fun e => match e with | .stack op => some op | _ => none)
+
+/-- `self.calibration` after the events -/
+def calNow (cal0 : List (String × Calib)) (evs : List ObjEvent) : List (String × Calib) :=
+  evs.foldl (fun cal e => match e with
+    | .stack op => calAfter { intercept := 0, gradient := 1 } cal op
+    | .setCal c => c
+    | .setCalItem n k => cal.filter (fun nk => nk.1 != n) ++ [(n, k)]) cal0
+
+def parseGetArgs (j : Json) : R GetArgs := do
+  pure { element := ← fld j "element" >>= asOpt asStr, calibrate := ← getBool j "calibrate", flat := ← getBool j "flat",
+         layer := ← fld j "layer" >>= asOpt asNat }
+
+/-- the value a field holds for a token: `token * fscale` for float fields (dtype kind `f`), the token itself otherwise -/
+def fieldScale (fscale : Rat) (dt : String) : Rat := if (dt.toList.getD 1 ' ') == 'f' then fscale else 1
+
+def meanRat (l : List Rat) : Rat := l.sum / (l.length : Rat)
+
+def jOut (o : GetOut (List Rat)) : Json :=
+  match o with
+  | .img a => jObj [("shape", jList jNat [a.rows, a.cols]),
+      ("data", jList (fun r => jList (fun c => jList jRat (a.get r c)) (List.range a.cols)) (List.range a.rows))]
+  | .stack a => jObj [("shape", jList jNat [a.rows, a.cols, a.depth]),
+      ("data", jList (fun r => jList (fun c => jList (fun i => jList jRat (a.get r c i)) (List.range a.depth))
+                (List.range a.cols)) (List.range a.rows))]
+
+def sameArr2 (a b : Arr2 (List Rat)) : Bool :=
+  a.rows == b.rows && a.cols == b.cols &&
+    (List.range a.rows).all (fun r => (List.range a.cols).all (fun c => a.get r c == b.get r c))
+
+def sameOut (x y : GetOut (List Rat)) : Bool :=
+  match x, y with
+  | .img a, .img b => sameArr2 a b
+  | .stack a, .stack b =>
+    a.rows == b.rows && a.cols == b.cols && a.depth == b.depth &&
+      (List.range a.rows).all (fun r => (List.range a.cols).all (fun c => (List.range a.depth).all (fun i =>
+        a.get r c i == b.get r c i)))
+  | _, _ => false
+
+/-- the calls of `get` listed in `reads`, made one after the other on ONE object holding `layers` (values, not tokens):
+what the mechanism `Laser.get` returns for each (`null`: it raises), whether each is `getSpec` of the layers the object
+was loaded with, and whether the store is what it was after all of them -/
+def readsReply (layers : List (Arr2 (List Rat))) (names : List String) (cal : List (String × Calib)) (c : SrrConfig)
+    (reads : List GetArgs) : List (String × Json) :=
+  let calf : List (String × (Rat → Rat)) := cal.map (fun nk => (nk.1, nk.2.apply))
+  let o0 : Laser Rat := Laser.load layers names calf c
+  let (o, outs, agree) := reads.foldl (fun (acc : Laser Rat × Array Json × Bool) a =>
+      let spec := getSpec (0 : Rat) meanRat layers names calf c a
+      match acc.1.get (0 : Rat) meanRat a with
+      | some (o', out) => (o', acc.2.1.push (jOut out), acc.2.2 && (match spec with | some s => sameOut out s | none => false))
+      | none => (acc.1, acc.2.1.push Json.null, acc.2.2 && spec.isNone)) (o0, #[], true)
+  let after := o.store.layers
+  let unchanged := after.length == layers.length &&
+    (List.zip after layers).all (fun (x, y) => sameArr2 x y)
+  [("reads_model", Json.arr outs), ("reads_are_spec", jBool agree), ("store_unchanged_by_reads", jBool unchanged),
+   ("cal", jList (fun (nk : String × Calib) => Json.arr #[jStr nk.1, jRat nk.2.intercept, jRat nk.2.gradient]) cal)]
+
 def jFields (fs : List (String × String)) : Json := jList (fun (f : String × String) => jList jStr [f.1, f.2]) fs
 
 /-- a layer as the harness sends it: shape and the pixels row by row, `n` values per pixel -/
@@ -210,8 +288,12 @@ def handle (op : String) (req : Json) : R Json := do
     let m := c.magnification
     -- the stack the object holds now: the one it was built with, then the changes made to it
     let stack0 : Stack := { fields := ← getList parseStrPair req "fields", layers := ← getList parseLayer req "layers" }
-    let sops ← getList parseStackOp req "stack_ops"
+    let evs ← getList parseEvent req "stack_ops"
+    let sops := stackOps evs
     let given ← getList parseRec req "arrays"
+    let cal0 ← getList parseCal req "cal0"
+    let fscale ← getRat req "fscale"
+    let reads ← getList parseGetArgs req "reads"
     let some stack := stack0.applyAll sops | pure (jObj [("stack_ok", jBool false)])
     let nel := stack.fields.length
     let layers := stack.layers
@@ -229,11 +311,20 @@ def handle (op : String) (req : Json) : R Json := do
       (List.range layers.length).all (fun i => match layers[i]? with
         | some l => decide (l.rows = if i % 2 = 0 then l0 else l1) && decide (l.cols = if i % 2 = 0 then s0 else s1)
         | none => false)
+    -- the lines of a crossed stack (lengths may differ within a layer kind: `Ragged`)
+    let linesCrossed := decide (2 ≤ layers.length) &&
+      (List.range layers.length).all (fun i => match layers[i]? with
+        | some l => decide (l.rows = if i % 2 = 0 then l0 else l1)
+        | none => false)
     -- the specification: warm-up = the exact quotient rounded half-even, offsets and sub-pixels per pixel as the
     -- setters' specification gives them (`offsets_setter_exact`), the float magnification's integer
     let wi := warmupSpec h.seconds h.scantime
     let w := wi.toNat
     let vspec := validSpec wi mag l0 s0 l1 s1
+    -- every layer holds the warm-up and the samples read from it (the second half of `Ragged`)
+    let allLong := decide (0 ≤ wi) && (List.range layers.length).all (fun i => match layers[i]? with
+        | some l => decide (w + (if i % 2 = 0 then l1 else l0) * mag ≤ l.cols)
+        | none => false)
     let rr := reconRows l0 mag p c.offs
     let rc := reconCols l1 mag p c.offs
     let n := layers.length
@@ -261,17 +352,37 @@ def handle (op : String) (req : Json) : R Json := do
       | none => Json.null)
     pure (jObj ([
       ("stack_ok", jBool true), ("fields", jFields stack.fields), ("stack", jList (jLayer nel) layers),
-      ("config", jCfg c), ("crossed", jBool crossed),
+      ("config", jCfg c), ("crossed", jBool crossed), ("lines_crossed", jBool linesCrossed), ("all_long_enough", jBool allLong),
       ("valid", jOpt jBool valid), ("valid_spec", jBool vspec),
       ("model", model), ("spec", jArr3 specArr), ("spec_inrange", jBool inrange),
       ("flat_model", Json.arr flatModel.toArray), ("flat_spec", Json.arr flatSpecs.toArray),
       ("layer_model", Json.arr (layerRead false).toArray), ("layer_model_flat", Json.arr (layerRead true).toArray),
-      ("layer_spec", Json.arr layerSpecs.toArray)] ++ jWarm h ++ recReply c given))
+      ("layer_spec", Json.arr layerSpecs.toArray)] ++ jWarm h ++ recReply c given
+      ++ readsReply (layers.map (Arr2.map (fun px => List.zipWith (fun (v : Int) (f : String × String) => (v : Rat) * fieldScale fscale f.2) px stack.fields)))
+           stack.names (calNow cal0 evs) c reads))
+  | "c09.valid" =>
+    -- `check_config_valid(config)` for configurations OTHER than the one the object holds: each `cfg` (constructor inputs +
+    -- changes) against the layer shapes alone
+    let shapes ← getList parseNatPair req "shapes"
+    let layers : List (Arr2 Unit) := shapes.map (fun rc => { rows := rc.1, cols := rc.2, get := fun _ _ => () })
+    let cfgs ← fld req "cfgs" >>= asArr
+    let mut out : Array Json := #[]
+    for cj in cfgs do
+      let h ← parseSrrHist cj
+      let c := h.cfg
+      let m := c.magnification
+      let (l0, s0, l1, s1) := match layers[0]?, layers[1]? with
+        | some d0, some d1 => (d0.rows, d0.cols, d1.rows, d1.cols)
+        | _, _ => (0, 0, 0, 0)
+      out := out.push (jObj ([("valid", jOpt jBool (validForData c m layers)),
+        ("valid_spec", jBool (validSpec (warmupSpec h.seconds h.scantime) (magInt m) l0 s0 l1 s1)),
+        ("integer_mag", jBool (intMag m)), ("mag", jNat (magInt m))] ++ jWarm h))
+    pure (jObj [("configs", Json.arr out)])
   | "c09.stack" =>
     -- the changes alone: fields and layer shapes after every prefix of `stack_ops` (`null` from the first change on
     -- that is outside the model: pewlib raises or leaves the object half changed)
     let stack0 : Stack := { fields := ← getList parseStrPair req "fields", layers := ← getList parseLayer req "layers" }
-    let sops ← getList parseStackOp req "stack_ops"
+    let sops := stackOps (← getList parseEvent req "stack_ops")
     let mut cur : Option Stack := some stack0
     let mut out : Array Json := #[]
     for op in sops do
